@@ -14,7 +14,7 @@ package PKGNAME
 //   * the linearised digest is the prescribed combination of key and proof commitments
 //   * the batch opening is checked for (lin, L, R, O, S1, S2, Qcp...) at zeta against the claimed
 //     values in that order, and Z at w*zeta against zu
-//verif:unwind 400
+//verif:unwind 4000
 //verif:summarize CRVNAME.deriveRandomness verifSummary_deriveRandomness
 //verif:summarize G1Affine).MultiExp verifSummary_MultiExp
 //verif:summarize kzg.FoldProof verifSummary_FoldProof
